@@ -18,3 +18,8 @@ add("C08", "E1",
     "Every tree up to the stated size over a table with alphabetic binary operators on three priority levels (also all-equal and 97..99 priorities); for every subset of call-form nodes (plus one further rendering deviation for the small sizes) parse, parse_wo_compile and DeepEx::parse must accept and yield the reference tree. Nesting in first and second arguments, under unary operators, inside extra parentheses and as operands of infix operators all arise from the tree enumeration itself.",
     "As C01.",
     "DESIGN.md §3 C08")
+add("C07", "E1",
+    "exhaustive single-point damage of every enumerated well-formed text + all token strings up to a length bound, classified by a reference lexer/classifier, against every parser entry point of three languages (symbolic, default f64, value type)",
+    "Every rendering (all call-form subsets) of every tree up to the stated size x every deletion/insertion of one parenthesis at every place, every appended binary operator, an extra operand on either side of every operand, six illegal characters at every character position; texts the reference classifier puts into one of the five classes of the property must be Err (not Ok, not a panic) for FlatEx::parse, parse_wo_compile, DeepEx::parse, eval_str, parse_val. Damages that yield well-formed or unclassified texts are skipped and counted.",
+    "Trusted: the reference lexer and the token-level classifier in harness/src/spec.rs (classes: empty, unbalanced, trailing operator, unknown character sequence, operand count).",
+    "DESIGN.md §3 C07")
